@@ -130,6 +130,38 @@ Proof.
     rewrite H3. cbn [exec negb]. rewrite L. reflexivity.
 Qed.
 
+(* a pattern that ends in a rest element *)
+Theorem cpattern_rest_correct code ks p it r e d :
+  code_at code p (cpattern_rest ks p) ->
+  exists k r' e' d',
+    run code k (mk V p it r e d [] 0 false) =
+    Some (mk V (length (cpattern_rest ks p) + p) (a_iter V (spec_rest V undef ks it)) r' e' d'
+             (a_bound V (spec_rest V undef ks it)) (a_nexts V (spec_rest V undef ks it)) false).
+Proof.
+  intros H. unfold cpattern_rest in H. cbn zeta in H. change (1 + p) with (S p) in H.
+  apply code_at_cons in H. destruct H as [H0 H]. change (1 + p) with (S p) in H.
+  apply code_at_app in H. destruct H as [H1 H2].
+  destruct (csteps_correct code ks (S p) it r e false [] 0 false H1) as (k1 & r1 & e1 & E1).
+  cbn zeta in E1. fold (spec ks it) in E1.
+  set (base := length (csteps ks (S p)) + S p) in *.
+  unfold spec_rest.
+  remember (spec ks it) as a eqn:Ea. destruct a as [i1 d1 b1 n1].
+  cbn [a_iter a_done a_bound a_nexts] in *.
+  assert (L : length (cpattern_rest ks p) + p = 5 + base).
+  { unfold cpattern_rest. cbn zeta. change (1 + p) with (S p). cbn [length]. rewrite app_length. cbn [length]. subst base. lia. }
+  destruct d1.
+  - (* already done: jump to the empty array, bind it *)
+    exists (1 + (k1 + 3)), r1, e1, true.
+    cbn [run Nat.add pc]. rewrite H0. cbn [exec]. rewrite run_add, E1.
+    cbn [run pc]. fetch H2 0. cbn [exec pc]. fetch H2 3. cbn [exec pc]. fetch H2 4. cbn [exec pc].
+    cbn [a_iter a_done a_bound a_nexts]. rewrite L. reflexivity.
+  - (* drain the rest, jump over the empty array, bind *)
+    exists (1 + (k1 + 4)), (RDone V), e1, false.
+    cbn [run Nat.add pc]. rewrite H0. cbn [exec]. rewrite run_add, E1.
+    cbn [run pc]. fetch H2 0. cbn [exec pc]. fetch H2 1. cbn [exec pc]. fetch H2 2. cbn [exec pc].
+    fetch H2 4. cbn [exec pc]. cbn [a_iter a_done a_bound a_nexts]. rewrite L. reflexivity.
+Qed.
+
 (* ---- the meaning in closed form ---- *)
 
 Lemma spec_steps_done ks : forall i b n,
@@ -212,6 +244,30 @@ Proof.
   - rewrite N. reflexivity.
   - exact D.
   - rewrite D. destruct (Nat.ltb_spec (length it) (length ks)); destruct (Nat.leb_spec (length ks) (length it)); try reflexivity; lia.
+Qed.
+
+
+(* With a rest element: the positions as before, the rest is what lies beyond them; next() is
+   called once per value and once more, whatever the number of positions; never closed. *)
+Theorem spec_rest_closed_form ks it :
+  a_bound V (spec_rest V undef ks it) = map (fun x => nth x it undef) (positions ks 0) ++ skipn (length ks) it /\
+  a_nexts V (spec_rest V undef ks it) = S (length it) /\
+  a_done V (spec_rest V undef ks it) = true.
+Proof.
+  unfold spec_rest.
+  destruct (spec_closed_form ks it) as (B & N & D & _).
+  assert (R : forall ks it b n, a_done V (spec_steps ks (mka V it false b n)) = false ->
+                                 a_iter V (spec_steps ks (mka V it false b n)) = skipn (length ks) it).
+  { clear. induction ks as [|k ks IH]; intros it b n Hd; [reflexivity|].
+    rewrite spec_steps_cons in *. cbn [spec_step] in *. destruct it as [|v it'].
+    - rewrite spec_steps_done in Hd. discriminate Hd.
+    - cbn [length skipn]. apply IH. exact Hd. }
+  rewrite D. destruct (Nat.ltb_spec (length it) (length ks)) as [Lt|Ge].
+  - rewrite skipn_all2 by lia. rewrite app_nil_r. repeat split; [exact B| |exact D].
+    rewrite N. lia.
+  - cbn [a_bound a_nexts a_done a_iter].
+    unfold spec in *. rewrite (R ks it [] 0 D).
+    rewrite B, N. repeat split. rewrite skipn_length. lia.
 Qed.
 
 End Proofs.
